@@ -196,7 +196,10 @@ def swap(ctx, m, res):
         pcl, bl = by[(2, t)]
         sw = lambda x: rename(x, ren)
         # the oracle value is the same in both runs iff its arguments are swap-invariant: quantile trivially; dof by symmetry of the formula
-        a0 = [a for b in b0 for a in apps_in(b)][0]
+        a0s = [a for b in b0 for a in apps_in(b)]
+        if not a0s:
+            continue                       # reported by the oracle guard above
+        a0 = a0s[0]
         if t:
             m.submit('C04:swap:dof-symmetric:' + tag, pc0 + [sw(c) for c in pc0] + base, T.mk('feq', a0[3], sw(a0[3])), key='C04:swap:dof-symmetric', timeout=120, note='effective dof is symmetric in the two samples')
         hy = [absC(c) for c in pc0] + [absC(sw(c)) for c in pc0] + base
